@@ -191,10 +191,17 @@ Definition row_get (r : row) (k : rkey) : option Z :=
   match md_index k (md_keymap (row_md r)) with Some i => nth_error (row_data r) i | None => None end.
 
 Record frozen := mkFrozen { fr_md : rowmd; fr_scalars : bool; fr_data : list (list Z) }.
+(* SimpleResultMetaData.__getstate__ keeps "_keys" only; __setstate__ rebuilds the keymap from the keys
+   alone: every additional lookup key of the frozen metadata (Column objects, but also the STRING aliases
+   such as Column.key or the table-qualified label) is gone afterwards *)
+Definition rebuild (keys : list Z) : list (rkey * nat) := combine (map KStr keys) (seq 0 (List.length keys)).
+Definition simple_md_roundtrip (m : rowmd) : rowmd := mkMd (md_keys m) (rebuild (md_keys m)).
 Definition frozen_roundtrip (f : frozen) : frozen :=
-  mkFrozen (md_roundtrip (fr_md f)) (fr_scalars f) (fr_data f).
+  mkFrozen (simple_md_roundtrip (fr_md f)) (fr_scalars f) (fr_data f).
 (* FrozenResult.__call__().all() and .keys() *)
 Definition thaw (f : frozen) : list Z * list (list Z) := (md_keys (fr_md f), fr_data f).
+(* position a lookup key resolves to in the rows of the thawed result *)
+Definition frozen_index (f : frozen) (k : rkey) : option nat := md_index k (md_keymap (fr_md f)).
 
 (* ================= 4. ext.serializer ================= *)
 Definition str := list Z.                          (* code points *)
